@@ -240,8 +240,8 @@ def cex_to_schedule(cex_text, opener="A"):
             evs.append(dict(a="Resolve", p=args[0], x=int(args[2]), y=1 if args[1] == "settle" else 0))
         elif act == "UpdateFee":
             evs.append(dict(a="UpdateFee", p=args[0], x=int(args[1]), y=0))
-        elif act == "Disconnect":
-            evs.append(dict(a="Disconnect", p="A", x=0, y=0))
+        elif act in ("Disconnect", "SoftDisconnect"):
+            evs.append(dict(a=act, p="A", x=0, y=0))
         elif act in ("Sign", "Revoke", "RecvAdd", "RecvRes", "RecvSig", "RecvRev", "SendReest", "RecvReest", "RecvFee"):
             evs.append(dict(a=act, p=args[0], x=0, y=0))
     return evs
